@@ -85,7 +85,14 @@ def parseOp (s : String) : Option Op :=
     | ("S", some items) => (buildMsg (listOf "," items)).map .send
     | _ => none
 
-def parseOps (s : String) : Option (List Op) := (listOf ";" s).mapM parseOp
+/-- `A` = the message of the previous `S:` again -/
+def parseOps (s : String) : Option (List Op) :=
+  (listOf ";" s).foldlM (init := ([] : List Op)) fun acc o =>
+    if o == "A" then
+      match acc.reverse.find? (fun op => match op with | .send _ => true | _ => false) with
+      | some op => some (acc ++ [op])
+      | none => some acc
+    else (parseOp o).map fun op => acc ++ [op]
 
 def parseHeader (s : String) : Option Header :=
   (listOf ";" s).mapM fun kv =>
